@@ -284,7 +284,12 @@ fn roundtrip_item(sink: &mut dyn Sink, s: &Schedule, d: Derive) {
     let le = || Expect::NoneOr(s.clone());
 
     // --- what the statement promises: as printed, without its line breaks, surrounding whitespace
-    sink.case(Case { kind: Kind::Strict, label: "as-printed", input: p.clone(), expect: ex() });
+    let base = sink.case(Case { kind: Kind::Strict, label: "as-printed", input: p.clone(), expect: ex() });
+    if matches!(base, Some((o, _)) if o != Outcome::SomeExpected) {
+        // The encoding as printed does not round-trip: that is the finding.  Re-formatted copies,
+        // prefixes etc. of a broken encoding say nothing more, and would only multiply keys.
+        return;
+    }
     if multi {
         sink.case(Case { kind: Kind::Strict, label: "line-breaks-removed", input: h.clone(), expect: ex() });
         sink.case(Case { kind: Kind::Strict, label: "padded-line-breaks-removed", input: format!(" \n{}\n ", h), expect: ex() });
